@@ -4,8 +4,21 @@
 //! freed names, the hash backend never does).  TLC (mc/Trace_Backends) checks the internal
 //! invariants on each logged observable and that both equal the abstract model in tag space.
 
-use crate::absg::{et_from, expr_json, parity_json, phase_json, sc_json};
-use crate::util::{arg_num, guarded, Tr};
+//!
+//! `--ext` (opt-in, the default histories are unchanged): additionally every remaining query of the
+//! public interface is logged after every operation (`x` inside the observable: vertex_data_opt,
+//! vertex_type_opt, edge_type_opt on ALL name pairs incl. dead names, coord, phase, vars, phase_and_vars,
+//! neighbor_vec, incident_edge_vec, component_vertices, depth, adjacency_matrix(None / Some),
+//! get_scalar_factor for enumerated and absent conditions, vec_graph::Graph::neighbor_at), histories start
+//! from `Graph::default()` every other time, and the generator mixes in: boundary construction through
+//! add_edge / inputs_mut / outputs_mut, add_vertex_with_phase, adjoint, x_to_z, plug_vertex,
+//! plug_input(s) / plug_output(s), make_bipartite, copy(adjoint), append_graph and plug with `other` of
+//! the OTHER backend type, and the Parity / Expr constructors and operators of params.rs (C10) as
+//! arguments of set_vars / add_to_vars / mul_scalar_factor plus the pure operation `par_alg`.
+
+use crate::absg::{build, et_from, expr_json, parity_json, phase_json, sc_json};
+use crate::util::{arg_flag, arg_num, guarded, Tr};
+use num::Zero;
 use num::Rational64;
 use quizx::graph::*;
 use quizx::params::{Expr, Parity};
@@ -103,12 +116,180 @@ pub fn obs(g: &impl GraphLike) -> Value {
            "vvec": vvec, "evec_len": evec_len, "found_z": found_z, "found_h": found_h, "lost_v": lost_v, "lost_e": lost_e})
 }
 
+fn vrec(name: V, tag: i64, ty: &str, ph: Phase, vars: &Parity, q: i64) -> Value {
+    let (vars, vc) = parity_json(vars);
+    json!({"name": name, "tag": tag, "ty": ty, "ph": phase_json(ph), "vars": vars, "vc": vc, "q": q})
+}
+
+/// the conditions get_scalar_factor is probed with besides the enumerated ones (present or not)
+fn sf_probes() -> Vec<Expr> {
+    let s = Parity::single;
+    let mut out: Vec<Expr> = (0..4).map(|v| Expr::linear(s(v))).collect();
+    out.push(Expr::linear(Parity::one()));
+    out.push(Expr::linear(s(0).negated()));
+    out.push(Expr::linear(Parity::new(vec![0u32, 1], false)));
+    out.push(Expr::quadratic(s(0), s(1)));
+    out.push(Expr::quadratic(s(1), s(2)));
+    out.push(Expr::quadratic(s(0).negated(), s(2)));
+    out
+}
+
+fn gsf_json(g: &impl GraphLike, e: &Expr) -> Value {
+    match g.get_scalar_factor(e) {
+        Some(s) => json!({"cond": expr_json(e), "has": true, "sc": sc_json(&s)}),
+        None => json!({"cond": expr_json(e), "has": false, "sc": [0, 0, 0, 0, 0]}),
+    }
+}
+
+/// --ext: the queries obs() does not make, each answered by the accessor named in the comment
+pub fn obs_x(g: &impl GraphLike) -> Value {
+    let mut vs: Vec<V> = g.vertices().collect();
+    vs.sort();
+    let top = g.vindex() + 2;
+    // vertex_type_opt, phase, vars, coord
+    let verts2: Vec<Value> = vs
+        .iter()
+        .map(|&v| {
+            let c = g.coord(v);
+            vrec(v, c.x as i64, g.vertex_type_opt(v).map(ty_s).unwrap_or("-"), g.phase(v), &g.vars(v), c.y as i64)
+        })
+        .collect();
+    // vertex_data_opt on live names
+    let verts3: Vec<Value> = vs
+        .iter()
+        .filter_map(|&v| g.vertex_data_opt(v).map(|d| vrec(v, d.row as i64, ty_s(d.ty), d.phase, &d.vars, d.qubit as i64)))
+        .collect();
+    // phase_and_vars
+    let pv: Vec<Value> = vs
+        .iter()
+        .map(|&v| {
+            let (p, par) = g.phase_and_vars(v);
+            let (vars, vc) = parity_json(&par);
+            json!({"name": v, "ph": phase_json(p), "vars": vars, "vc": vc})
+        })
+        .collect();
+    // vertex_data_opt / vertex_type_opt / edge_type_opt on every name up to beyond the index range (dead names included)
+    let vdo: Vec<V> = (0..top).filter(|&v| g.vertex_data_opt(v).is_some()).collect();
+    let vto: Vec<V> = (0..top).filter(|&v| g.vertex_type_opt(v).is_some()).collect();
+    let mut eto = vec![];
+    for a in 0..top {
+        for b in 0..top {
+            if let Some(t) = g.edge_type_opt(a, b) {
+                eto.push(json!([a, b, ets(t)]));
+            }
+        }
+    }
+    // neighbor_vec / incident_edge_vec
+    let nb: Vec<Value> = vs
+        .iter()
+        .map(|&v| {
+            let mut n = g.neighbor_vec(v);
+            n.sort();
+            let mut i: Vec<(V, &str)> = g.incident_edge_vec(v).into_iter().map(|(u, t)| (u, ets(t))).collect();
+            i.sort();
+            json!({"v": v, "nbv": n, "iev": i})
+        })
+        .collect();
+    // component_vertices
+    let mut comps: Vec<Vec<V>> = g
+        .component_vertices()
+        .into_iter()
+        .map(|c| {
+            let mut c: Vec<V> = c.into_iter().collect();
+            c.sort();
+            c
+        })
+        .collect();
+    comps.sort();
+    // adjacency_matrix(None): rows and columns follow vertices(); adjacency_matrix(Some(list)): a reversed sub-list
+    let bits = |m: &bitgauss::BitMatrix| -> Vec<Value> {
+        let mut out = vec![];
+        for i in 0..m.rows() {
+            for j in 0..m.cols() {
+                if m.bit(i, j) {
+                    out.push(json!([i, j]));
+                }
+            }
+        }
+        out
+    };
+    let order: Vec<V> = g.vertices().collect();
+    let m0 = g.adjacency_matrix(None);
+    let list: Vec<V> = vs.iter().rev().enumerate().filter(|(i, _)| i % 3 != 2).map(|(_, &v)| v).collect();
+    let m1 = g.adjacency_matrix(Some(&list));
+    // get_scalar_factor: every enumerated condition and a fixed set of probes
+    let mut gsf: Vec<Value> = g.scalar_factors().map(|(e, _)| gsf_json(g, e)).collect();
+    gsf.sort_by_key(|x| x["cond"].to_string());
+    let probes: Vec<Value> = sf_probes().iter().map(|e| gsf_json(g, e)).collect();
+    json!({"verts2": verts2, "verts3": verts3, "pv": pv, "vdo": vdo, "vto": vto, "eto": eto, "nb": nb, "comps": comps,
+           "depth": g.depth() as i64,
+           "am": {"rows": m0.rows(), "cols": m0.cols(), "order": order, "bits": bits(&m0)},
+           "ams": {"rows": m1.rows(), "cols": m1.cols(), "list": list, "bits": bits(&m1)},
+           "gsf": gsf, "probes": probes})
+}
+
+/// vec_graph::Graph::neighbor_at(v, n) for every live v and n < degree(v) (the vector backend's indexed iteration)
+fn neighbor_at_json(g: &quizx::vec_graph::Graph) -> Value {
+    let mut vs: Vec<V> = g.vertices().collect();
+    vs.sort();
+    Value::Array(vs.iter().map(|&v| json!((0..g.degree(v)).map(|n| g.neighbor_at(v, n)).collect::<Vec<V>>())).collect())
+}
+
+fn basis(s: &str) -> BasisElem {
+    match s {
+        "Z0" => BasisElem::Z0,
+        "Z1" => BasisElem::Z1,
+        "X0" => BasisElem::X0,
+        "X1" => BasisElem::X1,
+        _ => BasisElem::SKIP,
+    }
+}
+
+fn u32s(v: &Value) -> Vec<u32> {
+    v.as_array().unwrap().iter().map(|x| x.as_u64().unwrap() as u32).collect()
+}
+
+/// a Parity built the way the description says (C10: every constructor and operator of params.rs)
+fn mk_par(pc: &Value) -> Parity {
+    match pc["how"].as_str().unwrap() {
+        "new" => Parity::new(u32s(&pc["vars"]), pc["c"].as_bool().unwrap()),
+        "from_vec" => Parity::from(u32s(&pc["vars"])),
+        "single" => Parity::single(pc["v"].as_u64().unwrap() as u32),
+        "one" => Parity::one(),
+        "zero" => Parity::zero(),
+        "neg" => mk_par(&pc["of"]).negated(),
+        "sum" => &mk_par(&pc["a"]) + &mk_par(&pc["b"]),
+        "sum_owned" => mk_par(&pc["a"]) + mk_par(&pc["b"]),
+        h => panic!("parity constructor {h}"),
+    }
+}
+
+fn par_json(p: &Parity) -> Value {
+    let (v, c) = parity_json(p);
+    json!({"vars": v, "c": c})
+}
+
+/// the pure Parity / Expr interface on two caller-chosen operands; everything TLC needs to judge it
+fn par_alg(op: &Value) -> Value {
+    let (a, b) = (mk_par(&op["a"]), mk_par(&op["b"]));
+    let sum_ref = &a + &b;
+    let sum_own = a.clone() + b.clone();
+    let idx: Vec<u32> = (0..a.len()).map(|i| a[i]).collect();
+    let lin = Expr::linear(a.clone());
+    let quad = Expr::quadratic(a.clone(), b.clone());
+    let qidx: Vec<Value> = (0..quad.len()).map(|i| par_json(&quad[i])).collect();
+    json!({"res": "ok", "a": par_json(&a), "b": par_json(&b), "sum_ref": par_json(&sum_ref), "sum_own": par_json(&sum_own),
+           "neg": par_json(&a.negated()), "len": a.len(), "empty": a.is_empty(), "is_one": a.is_one(), "is_zero": a.is_zero(),
+           "idx": idx, "lin": expr_json(&lin), "lin_len": lin.len(), "lin_is_linear": lin.is_linear(), "lin_empty": lin.is_empty(),
+           "quad": expr_json(&quad), "quad_len": quad.len(), "quad_is_linear": quad.is_linear(), "quad_idx": qidx})
+}
+
 fn ph(k: i64) -> Phase {
     Phase::new(Rational64::new(k, 4))
 }
 
 /// apply one abstract operation (arguments are tags) to a backend; returns "ok"/"err"/"panic" and extra fields
-fn apply<G: GraphLike>(g: &mut G, op: &Value, side: &mut Vec<G>) -> Value {
+fn apply<G: GraphLike, O: GraphLike>(g: &mut G, op: &Value, side: &mut Vec<G>, other: &O) -> Value {
     let o = op["op"].as_str().unwrap();
     let t = |k: &str| op[k].as_i64().unwrap();
     let nm = |g: &G, k: &str| name_of(g, op[k].as_i64().unwrap()).expect("tag must be live");
@@ -183,7 +364,7 @@ fn apply<G: GraphLike>(g: &mut G, op: &Value, side: &mut Vec<G>) -> Value {
             }
             "set_vars" | "add_to_vars" => {
                 let v = nm(g, "t");
-                let p = Parity::new(op["vars"].as_array().unwrap().iter().map(|x| x.as_u64().unwrap() as u32).collect::<Vec<u32>>(), false);
+                let p = if op.get("pc").is_some() { mk_par(&op["pc"]) } else { Parity::new(u32s(&op["vars"]), false) };
                 if o == "set_vars" {
                     g.set_vars(v, p);
                 } else {
@@ -225,9 +406,16 @@ fn apply<G: GraphLike>(g: &mut G, op: &Value, side: &mut Vec<G>) -> Value {
                 json!({"res": "ok"})
             }
             "mul_sf" => {
-                let p = Parity::new(op["vars"].as_array().unwrap().iter().map(|x| x.as_u64().unwrap() as u32).collect::<Vec<u32>>(), false);
-                g.mul_scalar_factor(Expr::linear(p), Scalar4::from_phase(ph(t("ph"))));
-                json!({"res": "ok"})
+                if op.get("pc").is_some() {
+                    // --ext: the condition is built with the described constructors, linear or quadratic; the stored factor is read back
+                    let e = if op.get("pc2").is_some() { Expr::quadratic(mk_par(&op["pc"]), mk_par(&op["pc2"])) } else { Expr::linear(mk_par(&op["pc"])) };
+                    g.mul_scalar_factor(e.clone(), Scalar4::from_phase(ph(t("ph"))));
+                    json!({"res": "ok", "gsf": gsf_json(g, &e)})
+                } else {
+                    let p = Parity::new(u32s(&op["vars"]), false);
+                    g.mul_scalar_factor(Expr::linear(p), Scalar4::from_phase(ph(t("ph"))));
+                    json!({"res": "ok"})
+                }
             }
             "pack" => {
                 g.pack(op["force"].as_bool().unwrap());
@@ -256,6 +444,114 @@ fn apply<G: GraphLike>(g: &mut G, op: &Value, side: &mut Vec<G>) -> Value {
                 }
                 json!({"res": "ok", "mapped": vmap.len()})
             }
+            // ---------------- --ext operations ----------------
+            "init" => json!({"res": "ok"}),
+            "par_alg" => par_alg(op),
+            "add_bnd" => {
+                // a boundary wired to `s` and registered through inputs_mut / outputs_mut; plain wires go through add_edge
+                let s = nm(g, "s");
+                let b = g.add_vertex(VType::B);
+                g.set_row(b, t("tag") as f64);
+                if op["et"] == "N" {
+                    g.add_edge(b, s);
+                } else {
+                    g.add_edge_with_type(b, s, EType::H);
+                }
+                if op["side"] == "in" {
+                    g.inputs_mut().push(b);
+                } else {
+                    g.outputs_mut().push(b);
+                }
+                json!({"res": "ok", "name": b})
+            }
+            "add_vph" => {
+                let v = g.add_vertex_with_phase(ty_of(op["ty"].as_str().unwrap()), ph(t("ph")));
+                g.set_row(v, t("tag") as f64);
+                json!({"res": "ok", "name": v})
+            }
+            "push_input" => {
+                let v = nm(g, "t");
+                g.inputs_mut().push(v);
+                json!({"res": "ok"})
+            }
+            "bnd_remove" => {
+                let i = t("i") as usize;
+                if op["side"] == "in" {
+                    g.inputs_mut().remove(i);
+                } else {
+                    g.outputs_mut().remove(i);
+                }
+                json!({"res": "ok"})
+            }
+            "adjoint" => {
+                g.adjoint();
+                json!({"res": "ok"})
+            }
+            "x_to_z" => {
+                g.x_to_z();
+                json!({"res": "ok"})
+            }
+            "plug_vertex" => {
+                let v = nm(g, "t");
+                g.plug_vertex(v, basis(op["b"].as_str().unwrap()));
+                json!({"res": "ok"})
+            }
+            "plug_output" => {
+                g.plug_output(t("i") as usize, basis(op["b"].as_str().unwrap()));
+                json!({"res": "ok"})
+            }
+            "plug_input" => {
+                g.plug_input(t("i") as usize, basis(op["b"].as_str().unwrap()));
+                json!({"res": "ok"})
+            }
+            "plug_outputs" | "plug_inputs" => {
+                let l: Vec<BasisElem> = op["list"].as_array().unwrap().iter().map(|x| basis(x.as_str().unwrap())).collect();
+                if o == "plug_outputs" {
+                    g.plug_outputs(&l);
+                } else {
+                    g.plug_inputs(&l);
+                }
+                json!({"res": "ok"})
+            }
+            "make_bipartite" => {
+                // the new spiders get averaged coordinates: re-tag each by the pair of old vertices it was put between
+                let pairs: Vec<(V, V, i64)> = op["newtags"]
+                    .as_array()
+                    .unwrap()
+                    .iter()
+                    .map(|x| (name_of(g, x[0].as_i64().unwrap()).unwrap(), name_of(g, x[1].as_i64().unwrap()).unwrap(), x[2].as_i64().unwrap()))
+                    .collect();
+                let before: std::collections::HashSet<V> = g.vertices().collect();
+                g.make_bipartite();
+                for (a, b, tag) in pairs {
+                    let w = g
+                        .vertices()
+                        .find(|w| !before.contains(w) && g.connected(*w, a) && g.connected(*w, b))
+                        .expect("no new vertex between a same-coloured pair");
+                    g.set_row(w, tag as f64);
+                }
+                json!({"res": "ok"})
+            }
+            "copy" => {
+                let c = g.copy(op["adj"].as_bool().unwrap());
+                json!({"res": "ok", "sub": obs(&c)})
+            }
+            "append_x" => {
+                // append the OTHER backend's graph (same graph in tag space); the copies get tags old + off
+                let vmap = g.append_graph(other);
+                let off = t("off");
+                let pairs: Vec<(i64, usize)> = vmap.iter().map(|(old, new)| (tag_of(other, *old), *new)).collect();
+                for (tg, new) in pairs {
+                    g.set_row(new, (tg + off) as f64);
+                }
+                json!({"res": "ok", "mapped": vmap.len()})
+            }
+            "plug_x" => {
+                // plug a small diagram held by the OTHER backend type; its rows already carry the fresh tags
+                let h: O = build(&op["other"]);
+                g.plug(&h);
+                json!({"res": "ok"})
+            }
             _ => panic!("op {o}"),
         }
     });
@@ -265,6 +561,7 @@ fn apply<G: GraphLike>(g: &mut G, op: &Value, side: &mut Vec<G>) -> Value {
     }
 }
 
+#[derive(Clone)]
 struct Model {
     tags: Vec<i64>,
     edges: Vec<(i64, i64)>,
@@ -417,29 +714,357 @@ fn gen_op(r: &mut StdRng, m: &mut Model, max_live: usize, names_vec: &dyn Fn(usi
     json!({"op": "mul_sqrt2", "p": 0})
 }
 
+/// --ext: the generator's model is rebuilt from the vector backend's observable after every operation
+fn resync(m: &mut Model, a: &Value) {
+    let verts = a["verts"].as_array().unwrap();
+    let nm2tag = |n: u64| verts.iter().find(|v| v["name"].as_u64() == Some(n)).map(|v| v["tag"].as_i64().unwrap());
+    m.tags = verts.iter().map(|v| v["tag"].as_i64().unwrap()).collect();
+    m.types = verts
+        .iter()
+        .map(|v| (v["tag"].as_i64().unwrap(), match v["ty"].as_str().unwrap() { "B" => "B", "X" => "X", _ => "Z" }))
+        .collect();
+    m.ins = a["ins"].as_array().unwrap().iter().filter_map(|x| nm2tag(x.as_u64().unwrap())).collect();
+    m.outs = a["outs"].as_array().unwrap().iter().filter_map(|x| nm2tag(x.as_u64().unwrap())).collect();
+    if let Some(mx) = m.tags.iter().max() {
+        if *mx >= m.next {
+            m.next = mx + 1;
+        }
+    }
+}
+
+const BASES: [&str; 5] = ["Z0", "Z1", "X0", "X1", "SKIP"];
+
+/// a random description of a Parity with strictly increasing (canonical) variables, built through the
+/// constructors and operators of params.rs
+fn gen_pc(r: &mut StdRng, depth: usize) -> Value {
+    let sorted = |r: &mut StdRng| -> Vec<u32> { (0..4u32).filter(|_| r.random_bool(0.4)).collect() };
+    match r.random_range(0..if depth == 0 { 6 } else { 9 }) {
+        0 => json!({"how": "new", "vars": sorted(r), "c": false}),
+        1 => json!({"how": "new", "vars": sorted(r), "c": r.random_bool(0.5)}),
+        2 => {
+            // From<Vec<Var>> sorts: hand it a shuffled list of distinct variables
+            let mut v = sorted(r);
+            for i in (1..v.len()).rev() {
+                v.swap(i, r.random_range(0..=i));
+            }
+            json!({"how": "from_vec", "vars": v})
+        }
+        3 => json!({"how": "single", "v": r.random_range(0..4)}),
+        4 => json!({"how": "one"}),
+        5 => json!({"how": "zero"}),
+        6 => json!({"how": "neg", "of": gen_pc(r, depth - 1)}),
+        7 => json!({"how": "sum", "a": gen_pc(r, depth - 1), "b": gen_pc(r, depth - 1)}),
+        _ => json!({"how": "sum_owned", "a": gen_pc(r, depth - 1), "b": gen_pc(r, depth - 1)}),
+    }
+}
+
+/// operands of the pure Parity interface: sorted with duplicates (From<Vec> keeps them), or raw `new` with an unsorted list
+/// (outside the documented invariant "variables are kept sorted": recorded, judged in stats only)
+fn gen_raw_par(r: &mut StdRng) -> Value {
+    let n = r.random_range(0..5);
+    let mut v: Vec<u32> = (0..n).map(|_| r.random_range(0..4u32)).collect();
+    match r.random_range(0..5) {
+        0 => json!({"how": "from_vec", "vars": v}),
+        1 | 2 => json!({"how": "new", "vars": v, "c": r.random_bool(0.5)}),
+        _ => {
+            v.sort();
+            if r.random_bool(0.7) {
+                v.dedup();
+            }
+            json!({"how": "new", "vars": v, "c": r.random_bool(0.5)})
+        }
+    }
+}
+
+/// a small diagram with `n` inputs for plug_x, in the abstract JSON shape (ids local and scattered, `r` = fresh tags)
+fn gen_other(r: &mut StdRng, n: usize, m: &mut Model) -> Value {
+    use crate::gens::ph4;
+    let mut vs: Vec<Value> = vec![];
+    let mut es: Vec<Value> = vec![];
+    let (mut ins, mut outs) = (vec![], vec![]);
+    let mut next_id = 0usize;
+    let mut fresh = |r: &mut StdRng, ty: &str, p: i64, m: &mut Model, vs: &mut Vec<Value>| -> usize {
+        next_id += if r.random_bool(0.3) { 2 } else { 1 };
+        let tag = m.next;
+        m.next += 1;
+        vs.push(json!({"id": next_id, "ty": ty, "ph": ph4(p), "vars": [], "vc": false, "r": tag, "q": 0}));
+        next_id
+    };
+    let et = |r: &mut StdRng| if r.random_bool(0.5) { "N" } else { "H" };
+    let edge = |a: usize, b: usize, t: &str| json!({"u": a.min(b), "w": a.max(b), "t": t});
+    if n > 0 && r.random_bool(0.4) {
+        // one hub spider joined to every input, with 0..2 outputs
+        let (ty, p) = (["Z", "X"][r.random_range(0..2)], r.random_range(0..8));
+        let hub = fresh(r, ty, p, m, &mut vs);
+        for _ in 0..n {
+            let i = fresh(r, "B", 0, m, &mut vs);
+            es.push(edge(i, hub, et(r)));
+            ins.push(i);
+        }
+        for _ in 0..r.random_range(0..3) {
+            let o = fresh(r, "B", 0, m, &mut vs);
+            es.push(edge(o, hub, et(r)));
+            outs.push(o);
+        }
+    } else {
+        // one wire per input: bare, or through a spider
+        for _ in 0..n {
+            let i = fresh(r, "B", 0, m, &mut vs);
+            let o = fresh(r, "B", 0, m, &mut vs);
+            if r.random_bool(0.3) {
+                es.push(edge(i, o, et(r)));
+            } else {
+                let (ty, p) = (["Z", "X"][r.random_range(0..2)], r.random_range(0..8));
+                let s = fresh(r, ty, p, m, &mut vs);
+                es.push(edge(i, s, et(r)));
+                es.push(edge(s, o, et(r)));
+            }
+            ins.push(i);
+            outs.push(o);
+        }
+        if r.random_bool(0.3) {
+            // plus a state: spider - output
+            let p = r.random_range(0..8);
+            let s = fresh(r, "Z", p, m, &mut vs);
+            let o = fresh(r, "B", 0, m, &mut vs);
+            es.push(edge(s, o, et(r)));
+            outs.push(o);
+        }
+    }
+    vs.sort_by_key(|v| v["id"].as_u64());
+    es.sort_by_key(|e| (e["u"].as_u64(), e["w"].as_u64()));
+    let sc = [[1, 0, 0, 0, 0], [0, 1, 0, 0, 0], [0, 0, 1, 0, -1], [1, 1, 0, 0, 0]][r.random_range(0..4)];
+    json!({"v": vs, "e": es, "ins": ins, "outs": outs, "sc": sc, "sca": false, "sf": []})
+}
+
+/// --ext: one of the additional operations, or None (then the caller falls back to the default generator)
+fn gen_op_ext(r: &mut StdRng, m: &mut Model, max_live: usize) -> Option<Value> {
+    let pick = |r: &mut StdRng, v: &Vec<i64>| v[r.random_range(0..v.len())];
+    let live = m.tags.len();
+    let deg = |m: &Model, t: i64| m.edges.iter().filter(|&&(a, b)| a == t || b == t).count();
+    let nbr = |m: &Model, t: i64| m.edges.iter().find(|&&(a, b)| a == t || b == t).map(|&(a, b)| if a == t { b } else { a });
+    // a list position may be plugged with a Z-basis element only if the vertex has exactly one neighbour
+    // (plug_vertex toggles "the" neighbour's edge; with several the choice is the backend's iteration order)
+    let pluggable = |m: &Model, t: i64, b: &str| b.starts_with('X') || b == "SKIP" || deg(m, t) == 1;
+    // plug (valid usage): every output is a distinct boundary, not also listed as an input (plug deletes it), with exactly one
+    // neighbour; the neighbour is not itself an output and is a spider or is not shared with another output (the seam edge is
+    // inserted with add_edge_smart, which resolves parallel edges only between spiders)
+    let plug_ok = |m: &Model| {
+        m.outs.len() <= 3
+            && (0..m.outs.len()).all(|i| {
+                let o = m.outs[i];
+                !m.outs[..i].contains(&o) && !m.ins.contains(&o) && m.types[&o] == "B" && deg(m, o) == 1 && {
+                    let n = nbr(m, o).unwrap();
+                    !m.outs.contains(&n) && (m.types[&n] != "B" || !m.outs.iter().any(|&o2| o2 != o && nbr(m, o2) == Some(n)))
+                }
+            })
+    };
+    let mut c = r.random_range(0..100);
+    if !m.outs.is_empty() && plug_ok(m) && r.random_bool(0.12) {
+        c = 85;
+    }
+    if c < 20 {
+        if live == 0 || live >= max_live + 3 {
+            return None;
+        }
+        let s = pick(r, &m.tags);
+        let tag = m.next;
+        m.next += 1;
+        return Some(json!({"op": "add_bnd", "tag": tag, "s": s, "et": if r.random_bool(0.6) { "N" } else { "H" }, "side": if r.random_bool(0.35) { "in" } else { "out" }}));
+    }
+    if c < 25 {
+        if live >= max_live {
+            return None;
+        }
+        let tag = m.next;
+        m.next += 1;
+        let ty = ["Z", "X", "B"][r.random_range(0..3)];
+        return Some(json!({"op": "add_vph", "ty": ty, "ph": r.random_range(0..8), "tag": tag}));
+    }
+    if c < 28 {
+        if live == 0 {
+            return None;
+        }
+        return Some(json!({"op": "push_input", "t": pick(r, &m.tags)}));
+    }
+    if c < 32 {
+        let (side, l) = if r.random_bool(0.5) { ("in", &m.ins) } else { ("out", &m.outs) };
+        if l.is_empty() {
+            return None;
+        }
+        return Some(json!({"op": "bnd_remove", "side": side, "i": r.random_range(0..l.len())}));
+    }
+    if c < 38 {
+        return Some(json!({"op": "adjoint"}));
+    }
+    if c < 43 {
+        return Some(json!({"op": "x_to_z"}));
+    }
+    if c < 47 {
+        if live == 0 {
+            return None;
+        }
+        let t = pick(r, &m.tags);
+        let b = BASES[r.random_range(0..5)];
+        if !pluggable(m, t, b) {
+            return None;
+        }
+        return Some(json!({"op": "plug_vertex", "t": t, "b": b}));
+    }
+    if c < 55 {
+        let (o, l) = if r.random_bool(0.5) { ("plug_input", &m.ins) } else { ("plug_output", &m.outs) };
+        if l.is_empty() {
+            return None;
+        }
+        let i = r.random_range(0..l.len());
+        let b = BASES[r.random_range(0..4)];
+        if !pluggable(m, l[i], b) {
+            return None;
+        }
+        return Some(json!({"op": o, "i": i, "b": b}));
+    }
+    if c < 65 {
+        let (o, l) = if r.random_bool(0.5) { ("plug_inputs", &m.ins) } else { ("plug_outputs", &m.outs) };
+        // a repeated vertex in the list would be plugged twice: only lists of distinct vertices
+        if (0..l.len()).any(|i| l[..i].contains(&l[i])) {
+            return None;
+        }
+        let n = r.random_range(0..=l.len());
+        let list: Vec<&str> = (0..n).map(|_| BASES[r.random_range(0..5)]).collect();
+        if (0..n).any(|i| !pluggable(m, l[i], list[i])) {
+            return None;
+        }
+        return Some(json!({"op": o, "list": list}));
+    }
+    if c < 71 {
+        // every edge between two Z or two X spiders gets a new spider: fresh tags in the order of the sorted tag pairs
+        let mut pairs: Vec<(i64, i64)> = m.edges.iter().copied().filter(|(a, b)| m.types[a] == m.types[b] && m.types[a] != "B").collect();
+        pairs.sort();
+        if live + pairs.len() > max_live + 6 {
+            return None;
+        }
+        let nt: Vec<Value> = pairs
+            .iter()
+            .map(|&(a, b)| {
+                let t = m.next;
+                m.next += 1;
+                json!([a, b, t])
+            })
+            .collect();
+        return Some(json!({"op": "make_bipartite", "newtags": nt}));
+    }
+    if c < 76 {
+        return Some(json!({"op": "copy", "adj": r.random_bool(0.5)}));
+    }
+    if c < 80 {
+        if live == 0 || live > 4 || m.next >= 900_000 {
+            return None;
+        }
+        let off = 1000 * (1 + m.next / 1000);
+        m.next = off + 1000;
+        return Some(json!({"op": "append_x", "off": off}));
+    }
+    if c < 90 {
+        if !plug_ok(m) || live > max_live + 4 {
+            return None;
+        }
+        let n = m.outs.len();
+        let other = gen_other(r, n, m);
+        return Some(json!({"op": "plug_x", "other": other}));
+    }
+    if c < 95 {
+        return Some(match r.random_range(0..4) {
+            0 | 1 => {
+                if live == 0 {
+                    return None;
+                }
+                let t = pick(r, &m.tags);
+                // From<Vec> with a repeated variable is allowed here: the vertex then carries the parity with the pair cancelled
+                let pc = if r.random_bool(0.15) { json!({"how": "from_vec", "vars": [2, 0, 2]}) } else { gen_pc(r, 2) };
+                json!({"op": if r.random_bool(0.5) { "set_vars" } else { "add_to_vars" }, "t": t, "pc": pc})
+            }
+            2 => json!({"op": "mul_sf", "pc": gen_pc(r, 2), "ph": r.random_range(1..8)}),
+            _ => json!({"op": "mul_sf", "pc": gen_pc(r, 1), "pc2": gen_pc(r, 1), "ph": r.random_range(1..8)}),
+        });
+    }
+    Some(json!({"op": "par_alg", "a": gen_raw_par(r), "b": gen_raw_par(r)}))
+}
+
 pub fn record(args: &[String], seed: u64, tr: &mut Tr) -> Value {
     let histories: usize = arg_num(args, "--histories", 20);
     let len: usize = arg_num(args, "--len", 60);
     let max_live: usize = arg_num(args, "--maxlive", 7);
+    let ext = arg_flag(args, "--ext");
     let mut r = crate::gens::rng(seed);
     let mut nops = 0usize;
-    for _ in 0..histories {
-        let mut gv = quizx::vec_graph::Graph::new();
-        let mut gh = quizx::hash_graph::Graph::new();
+    let mut next_ops = 0usize;
+    let full_v = |g: &quizx::vec_graph::Graph| {
+        let mut o = obs(g);
+        if ext {
+            o["x"] = obs_x(g);
+            o["x"]["nat"] = neighbor_at_json(g);
+        }
+        o
+    };
+    let full_h = |g: &quizx::hash_graph::Graph| {
+        let mut o = obs(g);
+        if ext {
+            o["x"] = obs_x(g);
+        }
+        o
+    };
+    for hi in 0..histories {
+        // --ext: every other history starts from Default::default() instead of new()
+        let dflt = ext && hi % 2 == 1;
+        let mut gv = if dflt { quizx::vec_graph::Graph::default() } else { quizx::vec_graph::Graph::new() };
+        let mut gh = if dflt { quizx::hash_graph::Graph::default() } else { quizx::hash_graph::Graph::new() };
         let mut side_v: Vec<quizx::vec_graph::Graph> = vec![];
         let mut side_h: Vec<quizx::hash_graph::Graph> = vec![];
         let mut m = Model { tags: vec![], edges: vec![], ins: vec![], outs: vec![], next: 1, types: Default::default() };
         tr.group();
-        tr.emit(json!({"k": "begin"}));
+        if ext {
+            tr.emit(json!({"k": "begin", "ctor": if dflt { "default" } else { "new" }}));
+        } else {
+            tr.emit(json!({"k": "begin"}));
+        }
+        // --ext: in half of the histories the boundary lists are only edited through the boundary operations, so that
+        // well-formed outputs (what plug needs) survive long enough
+        let keep_bnd = ext && r.random_bool(0.5);
         let n = r.random_range(len / 2..=len);
-        for _ in 0..n {
+        for step in 0..n {
             let top = gv.vindex().max(gh.vindex());
             let (cv, ch) = (gv.clone(), gh.clone());
-            let op = gen_op(&mut r, &mut m, max_live, &|x| cv.contains_vertex(x), &|x| ch.contains_vertex(x), top);
-            let rv = apply(&mut gv, &op, &mut side_v);
-            let rh = apply(&mut gh, &op, &mut side_h);
+            let op = if ext && step == 0 {
+                json!({"op": "init"})
+            } else {
+                let mut chosen = None;
+                if ext && r.random_bool(0.45) {
+                    let saved = m.clone();
+                    chosen = gen_op_ext(&mut r, &mut m, max_live);
+                    if chosen.is_none() {
+                        m = saved;
+                    } else {
+                        next_ops += 1;
+                    }
+                }
+                match chosen {
+                    Some(op) => op,
+                    None => loop {
+                        let saved = m.clone();
+                        let op = gen_op(&mut r, &mut m, max_live, &|x| cv.contains_vertex(x), &|x| ch.contains_vertex(x), top);
+                        let o = op["op"].as_str().unwrap();
+                        if keep_bnd && (o == "set_inputs" || o == "set_outputs" || o == "push_output") {
+                            m = saved;
+                            continue;
+                        }
+                        break op;
+                    },
+                }
+            };
+            let rv = apply(&mut gv, &op, &mut side_v, &ch);
+            let rh = apply(&mut gh, &op, &mut side_h, &cv);
             nops += 1;
-            let (ov, oh) = (guarded(|| obs(&gv)), guarded(|| obs(&gh)));
+            let (ov, oh) = (guarded(|| full_v(&gv)), guarded(|| full_h(&gh)));
             let mut e = json!({"k": "op", "op": op, "rv": rv, "rh": rh});
             match (ov, oh) {
                 (Ok(a), Ok(b)) => {
@@ -449,6 +1074,9 @@ pub fn record(args: &[String], seed: u64, tr: &mut Tr) -> Value {
                         let (x, y) = (nm2tag(c[0].as_u64().unwrap()), nm2tag(c[1].as_u64().unwrap()));
                         if x < y { Some((x, y)) } else { None }
                     }).collect();
+                    if ext {
+                        resync(&mut m, &a);
+                    }
                     e["ov"] = a;
                     e["oh"] = b;
                     tr.emit(e);
@@ -465,8 +1093,8 @@ pub fn record(args: &[String], seed: u64, tr: &mut Tr) -> Value {
         }
         // clones taken aside must be untouched by everything that happened afterwards: logged for TLC
         for (i, (a, b)) in side_v.iter().zip(side_h.iter()).enumerate() {
-            tr.emit(json!({"k": "aside", "i": i + 1, "ov": obs(a), "oh": obs(b)}));
+            tr.emit(json!({"k": "aside", "i": i + 1, "ov": full_v(a), "oh": full_h(b)}));
         }
     }
-    json!({"histories": histories, "ops": nops})
+    json!({"histories": histories, "ops": nops, "ext_ops": next_ops})
 }
